@@ -257,6 +257,18 @@ Fixpoint deep_copy (fuel : nat) (l : loc) : M loc :=
 Definition value_depth : nat := Z.to_nat 4000.
 Definition depth_fuel : M nat := fun s => (Ok value_depth, s).
 
+(* strconv.Quote / %q on the subset where it is the identity between quotes:
+   printable ASCII without quote and backslash; None = oracle *)
+Definition go_quote (s : str) : option str :=
+  if forallb (fun c => (32 <=? c)%N && (c <=? 126)%N && negb (N.eqb c 34) && negb (N.eqb c 92)) s
+  then Some ([34%N] ++ s ++ [34%N]) else None.
+
+Definition quote_pieces (prefix : string) (s : str) : list piece :=
+  match go_quote s with
+  | Some q => [PStr (s_ prefix ++ q)]
+  | None => [PNum 0%float]            (* forces ENeedOracle when turned into text *)
+  end.
+
 (* String(): text of a value.  Numbers that fmt_num cannot render stay as pieces. *)
 Fixpoint join_pieces (sep : list piece) (l : list (list piece)) : list piece :=
   match l with
@@ -504,18 +516,6 @@ Definition parse_float (s : str) : parse_num :=
 
 Definition n_err : str := Eval compute in s_ "err".
 Definition n_errmsg : str := Eval compute in s_ "errmsg".
-
-(* strconv.Quote / %q on the subset where it is the identity between quotes:
-   printable ASCII without quote and backslash; None = oracle *)
-Definition go_quote (s : str) : option str :=
-  if forallb (fun c => (32 <=? c)%N && (c <=? 126)%N && negb (N.eqb c 34) && negb (N.eqb c 92)) s
-  then Some ([34%N] ++ s ++ [34%N]) else None.
-
-Definition quote_pieces (prefix : string) (s : str) : list piece :=
-  match go_quote s with
-  | Some q => [PStr (s_ prefix ++ q)]
-  | None => [PNum 0%float]            (* forces ENeedOracle when turned into text *)
-  end.
 
 (* globalErr: looks the cells up from the calling scope and mutates them in place *)
 Definition global_err (e : env) (is_err : bool) (msg : list piece) : M unit :=
